@@ -143,6 +143,18 @@ CHECKS["C14"] = dict(
          "simulations are compared with exact pastes / projections / loader round trips.",
     design="5 C14", technique="Lean 4 proof over the translated index arithmetic + _prep_iterators correspondence")
 
+CHECKS["C18"] = dict(
+    text="Theorems: for every (n_samples, n_features, n_components) the solver PcaClassifier configures is "
+         "full/tsqr, never randomized, accepted iff 0 <= n_components <= min(shape); flattening is a bijection; "
+         "row count, column sums and Gram matrix (hence mean, centred Gram, axes, singular values) agree for "
+         "every chunking and reduction order; the stacked R factors of per-chunk QR have the data's Gram matrix "
+         "(tall-skinny QR exact for every chunking, Mathlib matrices); Vt rows of an SVD are eigenvectors of the "
+         "Gram matrix with eigenvalues s^2, projections are U S, signs are free; projections are row-wise in "
+         "stack order; the label column holds labels[i] in row i, every other column untouched. LAPACK/dask SVD "
+         "accuracy and scikit-learn k-means are parameters, sampled against numpy's exact SVD and planted "
+         "clusters.",
+    design="5 C18", technique="Lean 4 proof (solver decision logic, chunk-free statistics, tsqr/SVD matrix algebra) + exact-Gram correspondence")
+
 CHECKS["C10"] = dict(
     text="Theorems: for every number of threads and EVERY schedule of TemplateMaskCache.get (statement "
          "granularity; Backend keys compared by wrapped module, cache filled at construction) no thread "
